@@ -198,7 +198,12 @@ theorem addTiles_mem (ivs : List Int) (s e : Int) (cb : Int) (v : Int)
 
 /-! ### one reference -/
 
-/-- what a reference index knows about the records `h` added to it (membership only) -/
+/-- the statistics `Add` accumulates over the records of one reference (`h` newest first) -/
+def statsOf : List Rec → Option Stats
+  | [] => none
+  | r :: older => some (addStats (statsOf older) r.chunk r.mapped)
+
+/-- what a reference index knows about the records `h` added to it (newest first) -/
 structure RefInv (ref : RefIndex) (h : List Rec) : Prop where
   /-- `bins_inv`: every record's chunk is stored under the record's bin -/
   bins : ∀ r, r ∈ h → ∃ bn, bn ∈ ref.bins ∧ bn.bin = r.bin ∧ r.chunk ∈ bn.chunks
@@ -212,6 +217,8 @@ structure RefInv (ref : RefIndex) (h : List Rec) : Prop where
   ivBound : ∀ v, v ∈ ref.intervals → ∃ a, a ∈ h ∧ v ≤ a.chunk.b
   /-- references without records are empty -/
   empty : h = [] → ref = emptyRef
+  /-- the statistics are those accumulated over exactly these records -/
+  stats : ref.stats = statsOf h
 
 theorem refInv_empty : RefInv emptyRef [] :=
   { bins := by intro r hr; cases hr
@@ -220,7 +227,8 @@ theorem refInv_empty : RefInv emptyRef [] :=
     tilesLen := by intro r hr; cases hr
     tilesLe := by intro r hr; cases hr
     ivBound := by intro v hv; cases hv
-    empty := fun _ => rfl }
+    empty := fun _ => rfl
+    stats := rfl }
 
 /-- one accepted `Add` on a reference -/
 theorem refInv_step (ref : RefIndex) (h : List Rec) (last : Int) (r : Rec)
@@ -239,7 +247,7 @@ theorem refInv_step (ref : RefIndex) (h : List Rec) (last : Int) (r : Rec)
   refine ⟨by trivial, by trivial, ?_⟩
   refine
     { bins := ?_, stored := ?_, nodup := addBin_nodup _ _ _ inv.nodup, tilesLen := ?_, tilesLe := ?_,
-      ivBound := ?_, empty := by intro hh; cases hh }
+      ivBound := ?_, empty := (by intro hh; cases hh), stats := (by simp only [statsOf, inv.stats]) }
   · intro a ha
     rcases List.mem_cons.1 ha with rfl | ha
     · exact ⟨bn0, hbn0, hbin0, hc0⟩
